@@ -14,7 +14,7 @@ C01_remove_empty_preserves_set_clauses C01_remove_empty_preserves_nodeset_decomp
 C01_pipeline_compose
 C01_symmetric_walk C01_symmetric_rule C01_symmetric_leaf C01_symmetric_ignores_other_children C01_symmetric_meaning C01_pipeline_symmetric
 C01_total_memory_dump_clause C01_total_memory_fields C01_pipeline_dump_clauses C01_pipeline_no_new_object C01_pipeline_unique
-C01_sets_through_level_merging C01_merge_step_sets C01_pipeline_sets_through_level_merging C01_pipeline_pu_leaf_and_root""".split()]
+C01_sets_through_level_merging C01_merge_step_sets C01_pipeline_sets_through_level_merging C01_pipeline_pu_leaf_and_root C01_pipeline_numa_exists""".split()]
 TRUSTED = ["C01_discovery_by_insertion is about the model of hwloc___insert_object_by_cpuset (lean/Hw/Topo/Insert.lean); that model is tied to the "
            "code by the C02 history engine, which predicts the exact tree after every hwloc_topology_insert_group_object call (new object = "
            "Group; the type-order table used for other new types is generated from the source by tools/gen_restrict.py but exercised only "
